@@ -189,7 +189,16 @@ pub fn check(case: &Case, st: &mut Stats) -> Result<(), Violation> {
         return Ok(());
     }
     let res = catch(|| {
-        let l = LinearRgb::new(px.clone(), case.w, case.h).map_err(|e| format!("{e:?}"))?;
+        // the LinearRgb object is either fresh or the result of an earlier Hsl -> LinearRgb conversion of a
+        // grey image that was then painted over through data_mut(): only the pixel data may matter
+        let paint = px.len() > 1 && (px[0][1].to_bits() ^ px[px.len() - 1][0].to_bits()) % 3 == 0;
+        let l = if paint {
+            let mut l = LinearRgb::from(Hsl::new(vec![[0.0f32, 0.0, 0.5]; px.len()], case.w, case.h).map_err(|e| format!("{e:?}"))?);
+            l.data_mut().copy_from_slice(&px);
+            l
+        } else {
+            LinearRgb::new(px.clone(), case.w, case.h).map_err(|e| format!("{e:?}"))?
+        };
         let hsl = Hsl::from(l);
         let back = LinearRgb::from(hsl.clone());
         Ok::<_, String>((hsl, back))
@@ -308,4 +317,4 @@ pub fn replay(v: &Value) -> Result<(), String> {
     check(&case, &mut Stats::new()).map_err(|v| v.message)
 }
 
-pub const RULE: &str = "cases = w x h images of linear-RGB pixels of [0,1]^3 built by construction from 7 strata, a third of the images with related neighbours (equal / partly equal / rotated / fed-back pixels), single-pixel and tiny images over-represented (uniform; per-sextant: ordering of R,G,B chosen among the 6 permutations, then max/min/mid; near ties mid = max-e / min+e with e log-uniform 1e-8..1e-2; greys and near-greys with chroma 1e-7..1e-2; extreme lightness within 1e-5 of 0/1; lattice {0,.5,1}; exact two-channel ties), and HSL anchor images (H in [0,360) incl. multiples of 60 and 360-ulp, S in [0,1], L in {0,1}), generated by proptest, plus an enumerated RGB lattice; oracle = f64 hexcone model with the statement's tolerances and ranges, round trip within 1e-5, L=0 -> black, L=1 -> white; non-trivial = image with a pixel of chroma >= 0.01 (or any anchor image); distinct = by hash of pixel bits";
+pub const RULE: &str = "cases = w x h images of linear-RGB pixels of [0,1]^3 built by construction from 7 strata, a third of the images with related neighbours (equal / partly equal / rotated / fed-back pixels), single-pixel and tiny images over-represented (uniform; per-sextant: ordering of R,G,B chosen among the 6 permutations, then max/min/mid; near ties mid = max-e / min+e with e log-uniform 1e-8..1e-2; greys and near-greys with chroma 1e-7..1e-2; extreme lightness within 1e-5 of 0/1; lattice {0,.5,1}; exact two-channel ties), and HSL anchor images (H in [0,360) incl. multiples of 60 and 360-ulp, S in [0,1], L in {0,1}), generated by proptest, plus an enumerated RGB lattice; a third of the LinearRgb objects are produced by an earlier Hsl->LinearRgb conversion of a grey image and painted over through data_mut(); oracle = f64 hexcone model with the statement's tolerances and ranges, round trip within 1e-5, L=0 -> black, L=1 -> white; non-trivial = image with a pixel of chroma >= 0.01 (or any anchor image); distinct = by hash of pixel bits";
